@@ -242,7 +242,7 @@ func genC10(c *Cfg, emit func([]string)) {
 	// attempted in and out of turn
 	depth := 4
 	if c.Thorough() {
-		depth = 6
+		depth = 5 // (depth 6 over the 8-step alphabet is 10^6 histories on two chaincode instances: hours)
 	}
 	alpha := []string{"from t1 u0 40", "fromlc t1 u0 40", "fromadm t1 u0 40", "to t1 u0 40", "commit t1", "delto t1", "delfrom t1", "cancel t1"}
 	for _, dir := range []string{"f", "b", "g", "h"} {
